@@ -105,12 +105,19 @@ func searchCompute(fn, kn string) (ans string, line string) {
 	}()
 	k := kindOf(kn)
 	var a searchAcc
+	sl := newSlot()
+	guarded := func(d *callDesc, f func() string) string {
+		sl.enter(d)
+		defer sl.leave()
+
+		return f()
+	}
 	switch fn {
 	case "add", "sub", "mul", "div":
 		b := boundary(k)
 		for _, x := range b {
 			for _, y := range append(append([]*big.Int(nil), b...), extraNear(k, x)...) {
-				a.note(dispatch("safe", kn, fn, x, y), expected(k, fn, x, y), func() (string, string) {
+				a.note(guarded(&callDesc{prefix: "safe " + fn + " " + kn, x: x, y: y}, func() string { return dispatch("safe", kn, fn, x, y) }), expected(k, fn, x, y), func() (string, string) {
 					return x.String() + " " + y.String(), "safe " + fn + " " + kn + " " + x.String() + " " + y.String()
 				})
 			}
@@ -119,7 +126,7 @@ func searchCompute(fn, kn string) (ans string, line string) {
 		for _, v := range boundary(k) {
 			for n := int64(0); n <= 255; n++ {
 				nb := big.NewInt(n)
-				a.note(dispatch("safe", kn, "shl", v, nb), expected(k, "shl", v, nb), func() (string, string) {
+				a.note(guarded(&callDesc{prefix: "safe shl " + kn, x: v, y: nb}, func() string { return dispatch("safe", kn, "shl", v, nb) }), expected(k, "shl", v, nb), func() (string, string) {
 					return v.String() + " " + nb.String(), "safe shl " + kn + " " + v.String() + " " + nb.String()
 				})
 			}
@@ -129,12 +136,13 @@ func searchCompute(fn, kn string) (ans string, line string) {
 		b := boundary(k)
 		for _, x := range b {
 			for _, y := range append(append([]*big.Int(nil), b...), extraNear(k, x)...) {
-				var got string
-				if fn == "mulu64" {
-					got = res(safemath.SafeMulUint64(x.Uint64(), y.Uint64()))
-				} else {
-					got = res(safemath.SafeMulInt64(x.Int64(), y.Int64()))
-				}
+				got := guarded(&callDesc{prefix: fn, x: x, y: y}, func() string {
+					if fn == "mulu64" {
+						return res(safemath.SafeMulUint64(x.Uint64(), y.Uint64()))
+					}
+
+					return res(safemath.SafeMulInt64(x.Int64(), y.Int64()))
+				})
 				a.note(got, expected(k, "mul", x, y), func() (string, string) {
 					return x.String() + " " + y.String(), fn + " " + x.String() + " " + y.String()
 				})
@@ -151,8 +159,12 @@ func searchCompute(fn, kn string) (ans string, line string) {
 					if !k.inRange(d) {
 						continue
 					}
-					got := "panic"
-					hx.Safely(func() { got = res(safemath.Safe64MulDiv(x.Uint64(), y.Uint64(), d.Uint64())) })
+					got := guarded(&callDesc{prefix: "muldiv", x: x, y: y, z: d}, func() string {
+						out := "panic"
+						hx.Safely(func() { out = res(safemath.Safe64MulDiv(x.Uint64(), y.Uint64(), d.Uint64())) })
+
+						return out
+					})
 					want := "divzero"
 					if d.Sign() != 0 {
 						if z := new(big.Int).Quo(p, d); k.inRange(z) {
